@@ -53,6 +53,7 @@ type c02Node struct {
 	// sink; u (ECAL) addEvent inside a user function called by the sink
 	children map[int][]int
 	unit     int // the (sub-)cascade the node belongs to
+	twin     int // >= 0: the event has the NAME, KIND and RULES of that (sibling) node, only its state differs
 }
 
 type c02Casc struct {
@@ -77,6 +78,7 @@ type c02Plan struct {
 	noHandler bool // H0: no finish handler is set (w mode)
 	noErrObs  bool // E0: no root monitor error observer
 	prios     bool // P1: child monitors get different priorities
+	nilRoot   bool // R0: AddEventAndWait(ev, nil) — the root monitor is created inside (w mode, triggering root)
 	cascs     []c02Casc
 	units     []c02Unit
 }
@@ -103,13 +105,15 @@ func c02Parse(p string) *c02Plan {
 			pl.noErrObs = v == 0
 		case 'P':
 			pl.prios = v == 1
+		case 'R':
+			pl.nilRoot = v == 0
 		}
 	}
 	for ci, cs := range f[1:] {
 		c := c02Casc{mode: cs[0]}
 		for _, ns := range strings.Split(cs[2:], "/") {
 			x := strings.Split(ns, ".")
-			n := c02Node{parent: -1, prule: -1, kind: x[2][0], link: 'c', children: map[int][]int{}}
+			n := c02Node{parent: -1, prule: -1, kind: x[2][0], link: 'c', twin: -1, children: map[int][]int{}}
 			if x[0] != "-" {
 				n.parent, _ = strconv.Atoi(x[0])
 				n.prule, _ = strconv.Atoi(x[1])
@@ -119,6 +123,9 @@ func c02Parse(p string) *c02Plan {
 			}
 			if len(x) > 4 {
 				n.link = x[4][0]
+			}
+			if len(x) > 5 && x[5][0] == 't' {
+				n.twin, _ = strconv.Atoi(x[5][1:])
 			}
 			ni := len(c.nodes)
 			switch {
@@ -154,8 +161,15 @@ func (c *c02Casc) String() string {
 			r = "-"
 		}
 		l := ""
-		if n.link != 'c' && n.link != 0 {
-			l = "." + string(n.link)
+		if n.link != 'c' && n.link != 0 || n.twin >= 0 {
+			lk := n.link
+			if lk == 0 {
+				lk = 'c'
+			}
+			l = "." + string(lk)
+			if n.twin >= 0 {
+				l += fmt.Sprintf(".t%d", n.twin)
+			}
 		}
 		if n.parent < 0 {
 			ns = append(ns, fmt.Sprintf("-.-.%c.%s", n.kind, r))
@@ -176,7 +190,7 @@ func c02GenCasc(r *Rand, maxNodes int, pFail int, rich bool, ecal bool, nested *
 	}
 	type item struct{ idx, depth int }
 	mk := func(parent, prule, depth int) c02Node {
-		n := c02Node{parent: parent, prule: prule, kind: 't', link: 'c', children: map[int][]int{}}
+		n := c02Node{parent: parent, prule: prule, kind: 't', link: 'c', twin: -1, children: map[int][]int{}}
 		if rich && parent >= 0 {
 			switch x := r.Intn(100); {
 			case x < 7 && *nested > 0:
@@ -234,6 +248,32 @@ func c02GenCasc(r *Rand, maxNodes int, pFail int, rich bool, ecal bool, nested *
 			pr := r.Intn(len(n.rules))
 			c.nodes = append(c.nodes, mk(it.idx, pr, it.depth+1))
 			queue = append(queue, item{len(c.nodes) - 1, it.depth + 1})
+		}
+	}
+	if rich {
+		// up to two TWINS: a second event with the name, kind and rules of a leaf sibling, added by
+		// the same action with a different state (one rule serves both events)
+		for t := 0; t < 2 && len(c.nodes) < maxNodes+2; t++ {
+			var leaves []int
+			for i, n := range c.nodes {
+				if n.parent >= 0 && n.kind == 't' && n.link == 'c' && n.twin < 0 {
+					leaf := true
+					for _, m := range c.nodes {
+						if m.parent == i || m.twin == i {
+							leaf = false
+						}
+					}
+					if leaf {
+						leaves = append(leaves, i)
+					}
+				}
+			}
+			if len(leaves) == 0 || r.Intn(2) == 0 {
+				break
+			}
+			a := leaves[r.Intn(len(leaves))]
+			n := c.nodes[a]
+			c.nodes = append(c.nodes, c02Node{parent: n.parent, prule: n.prule, kind: 't', rules: n.rules, link: 'c', twin: a, children: map[int][]int{}})
 		}
 	}
 	return c
@@ -347,31 +387,41 @@ func (st *c02State) id(mon uint64) int {
 	return 9999
 }
 
+// c02EventNode: the plan node of an event = the "id" entry of its state (names and kinds may be
+// shared by several events).
 func c02EventNode(e interface{}) int {
 	ev, ok := e.(*engine.Event)
 	if !ok || ev == nil {
 		return 9999
 	}
-	i := strings.Index(ev.Name(), "n")
-	if i < 0 {
-		return 9999
+	switch v := ev.State()["id"].(type) {
+	case int:
+		return v
+	case float64:
+		return int(v)
 	}
-	v, err := strconv.Atoi(ev.Name()[i+1:])
-	if err != nil {
-		return 9999
-	}
-	return v
+	return 9999
 }
 
-// schedule modes (header field D): 0 random yields/sleeps at the hook points; 1 + hold a failing
-// task between SetErrors and Finish until another task's error observer has called AllErrors;
-// 2 + hold the adder after pool.AddTask of the root event until the cascade has posted; 3 + hold a
-// finisher INSIDE the root's critical section when one more monitor is outstanding (the last
-// finisher queues on the lock for > 1 ms, the mutex goes into starvation mode and Unlock hands the
-// processor to it: the last finisher runs before the first one continues after its Unlock), hold the
-// goroutine that saw zero before PostEvent, hold a non-last finisher right after Unlock; 4 PCT: a
-// random priority per goroutine, lower priorities are slowed down at every hook point, three
-// priority change points; 5 = 1+2+3.
+// name and kind of the event of a plan node: c<ci>n<A> / ["c<ci>", "n<A>"], A = the node or its twin
+func c02EvName(plan *c02Plan, ci, ni int) string {
+	if t := plan.cascs[ci].nodes[ni].twin; t >= 0 {
+		ni = t
+	}
+	return fmt.Sprintf("c%dn%d", ci, ni)
+}
+
+func c02EvKind(plan *c02Plan, ci, ni int) []string {
+	if t := plan.cascs[ci].nodes[ni].twin; t >= 0 {
+		ni = t
+	}
+	return []string{fmt.Sprintf("c%d", ci), fmt.Sprintf("n%d", ni)}
+}
+
+func c02Event(plan *c02Plan, ci, ni int) *engine.Event {
+	return engine.NewEvent(c02EvName(plan, ci, ni), c02EvKind(plan, ci, ni), map[interface{}]interface{}{"id": ni})
+}
+
 // count adds to a per-case counter (hook goroutines run concurrently: not CountRun directly)
 func (st *c02State) count(key string) {
 	st.cmu.Lock()
@@ -832,6 +882,35 @@ func init() {
 				}
 			}
 			flags = ""
+			// two events with the same name and kind (and one rule serving both), different state;
+			// a wide cascade: 300 failing children of one action (report size, counter width)
+			twins := []string{"w=-.-.t.o/0.0.t.x/0.0.t.x.c.t1", "w=-.-.t.ox/0.1.t.xx/0.1.t.xx.c.t1/0.0.t.o/0.0.t.o.c.t3", "a=-.-.t.o/0.0.t.ox/0.0.t.ox.c.t1/0.0.t.x"}
+			wide300 := "w=-.-.t.o" + strings.Repeat("/0.0.t.x", 300)
+			for _, m := range []bool{false, true} {
+				ecalMode = m
+				for _, c := range twins {
+					for _, w := range []int{2, 8} {
+						g.Count("corpus shared event names")
+						emit(w, false, 0, []c02Casc{lit(c)})
+						emit(w, true, 4, []c02Casc{lit(c), lit(c)})
+					}
+				}
+				if !m || g.Thorough() {
+					g.Count("corpus 300 failing children")
+					emit(16, false, 0, []c02Casc{lit(wide300)})
+				}
+			}
+			ecalMode = false
+			if g.Thorough() {
+				// an action parked for 2.2 s: the wait must not return meanwhile (early=0)
+				for _, c := range []string{"w=-.-.t.P", "w=-.-.t.o/0.0.t.P/0.0.t.x", "a=-.-.t.o/0.0.t.Px"} {
+					g.Count("corpus parked action")
+					emit(4, false, 0, []c02Casc{lit(c)})
+				}
+				ecalMode = true
+				emit(4, false, 0, []c02Casc{lit("w=-.-.t.o/0.0.t.P")})
+				ecalMode = false
+			}
 			ecalMode = true
 			for _, c := range []string{
 				"w=-.-.t.o/0.0.t.x.l/0.0.t.x.u/0.0.t.x.d/0.0.t.x", "w=-.-.t.or/0.0.t.r/0.1.t.x.n/2.0.t.r",
@@ -914,6 +993,9 @@ func init() {
 					}
 					if g.R.Intn(3) == 0 {
 						flags += ",P1"
+					}
+					if !ecalMode && g.R.Intn(8) == 0 {
+						flags += ",R0"
 					}
 				}
 				emit(workers, g.R.Intn(4) == 0, []int{0, 0, 0, 0, 0, 1, 1, 1, 2, 2, 2, 3, 3, 3, 4, 4, 4, 4, 5, 5}[g.R.Intn(20)], cs)
